@@ -162,6 +162,7 @@ func c08PlainVSS(run *mon.Run) {
 						go func(vc vssCase) {
 							defer wg.Done()
 							defer func() { <-sem }()
+							defer run.Protect("c08 worker")
 							c08RunVSS(run, vc, cv)
 						}(vc)
 					}
